@@ -35,7 +35,7 @@ def cell_bytes(c: RCell, index_of, size, with_hashes=False, ref_override=None, b
         for i in sig:
             out += bytes([c.H(i)[0] ^ 0x80]) + c.H(i)[1:] if bogus else src.H(i)
         for i in sig:
-            out += ((c.D(i) + 5) % 1024 if bogus else src.D(i)).to_bytes(2, 'big')
+            out += ((c.D(i) + 5) % 1024 if bogus and bogus != 'hash-only' else src.D(i)).to_bytes(2, 'big')
     out += bits_to_padded_bytes(c.bits)
     for j, r in enumerate(c.refs):
         v = index_of[r.repr_hash()]
@@ -91,7 +91,9 @@ def encode(roots, magic='generic', size=None, off_bytes=None, has_idx=False, has
         ro.setdefault(ci, {})[rj] = v
     # stored_from: {position: donor cell} - the hashes / depths STORED for that position are the donor's (a forger copies the
     # stored values of the honest bag onto his altered cells); only meaningful for positions in with_hashes
-    blobs = [cell_bytes(c, index_of, size, i in with_hashes, ro.get(i), i in bogus_hashes, (stored_from or {}).get(i))
+    # bogus_hashes may be a dict {position: 'hash-only'}: the stored hash is wrong while the stored depths are the true ones
+    blobs = [cell_bytes(c, index_of, size, i in with_hashes, ro.get(i),
+                        (bogus_hashes.get(i, False) if isinstance(bogus_hashes, dict) else i in bogus_hashes), (stored_from or {}).get(i))
              for i, c in enumerate(order)]
     payload = b''.join(blobs)
     moff = min_bytes(len(payload) * (2 if has_cache_bits else 1))
